@@ -1,6 +1,6 @@
 #!/bin/bash
-# usage: tools/validate_seed.sh <PID> [seeddir] : validates a sub-agent's seeded change in its scratch worktree
-pid=$1; wt=/tmp/seedwt/$pid; sd=${2:-$wt/SEED}; out=/root/scratch/seedval/$pid; mkdir -p $out
+# usage: tools/validate_seed.sh <PID> [seeddir] [result key] : validates a sub-agent's seeded change in its scratch worktree
+pid=$1; wt=/tmp/seedwt/$pid; sd=${2:-$wt/SEED}; key=${3:-$pid}; out=/root/scratch/seedval/$key; mkdir -p $out
 cd $wt || exit 9
 git checkout -q -- . ; git status --short | grep -v '^??' && { echo "worktree dirty"; exit 9; }
 echo "== demo on clean tree"; timeout 1200 /venv/bin/python $sd/demo.py > $out/demo_clean.log 2>&1; echo "exit=$?" | tee $out/demo_clean.rc
